@@ -294,6 +294,61 @@ def r06_7(run, model):
                witness="struct Span{lo,hi}: `let Span { hi: h, lo: l } = s` binds h to s.lo (tast_builder / compile_struct_case read the record positionally)")
 
 
+def r06_8(run, model):
+    run.rule("R06.8", "in every case-splitting function a row that does not constrain the branch column (the else branch of "
+                      "`if let Some(col) = row.remove_column(..)`) is appended to the sub-matrices unconditionally: no continue/break/return and "
+                      "no condition around the pushes")
+    n = 0
+    for f in model.fns(CM):
+        if f.body is None:
+            continue
+        for loop in S.find(f.body, "For"):
+            for st in loop["body"]["stmts"]:
+                e = st.get("expr") if st["k"] == "ExprStmt" else None
+                if not (e and e["k"] == "If" and e["cond"]["k"] == "Let" and any(True for _ in S.calls(e["cond"], "remove_column"))):
+                    continue
+                els = e.get("else")
+                n += 1
+                if els is None:
+                    run.ob("R06.8", f"{f.name}|unconstrained rows are kept", False, site(CM, e["sp"]), "rows that do not mention the column are dropped (no else branch)",
+                           witness="an arm that is a wildcard in this column never matches")
+                    continue
+                par = S.Parents(els)
+                pushes = [c for c in S.walk(els) if c["k"] == "MethodCall" and c["method"] == "push"]
+                exits = [x["k"] for x in S.walk_no_closures(els) if x["k"] in ("Continue", "Break", "Return")]
+                cond = [c for c in pushes if any(a["k"] in ("If", "Match") for a in par.ancestors(c))]
+                ok = bool(pushes) and not exits and not cond
+                run.ob("R06.8", f"{f.name}|unconstrained rows go to every sub-matrix", ok, site(CM, els["sp"]),
+                       f"{len(pushes)} pushes, conditional pushes: {len(cond)}, early exits: {exits or 'none'}",
+                       witness="match on an enum where every variant already has a (refutable) row: a later catch-all arm is not copied into the variants' sub-matrices; values not covered by the earlier rows hit `missing` or fall through")
+    run.floor("row-distribution loops", n, 5)
+
+
+def r06_9(run, model):
+    run.rule("R06.9", "a destructuring let compiles to a two-row matrix: the pattern row and a wildcard row whose body is the failure call, so a "
+                      "value that does not match fails instead of continuing")
+    n = 0
+    for f in model.fns(CM):
+        if f.body is None or f.name not in ("compile_block_exprs", "compile_expr"):
+            continue
+        for l in S.find(f.body, "Local"):
+            if l["pat"]["k"] != "PIdent" or l["pat"]["name"] != "rows" or l.get("init") is None or l["init"]["k"] != "Macro" or l["init"]["name"] != "vec":
+                continue
+            rows = [a for a in (l["init"].get("args") or []) if a["k"] == "Struct" and a["segs"][-1] == "Row"]
+            if not rows:
+                continue
+            first = S.norm_ws(run.facts.text(CM, rows[0]["sp"]))
+            if "pat:pat.clone()" not in first:
+                continue
+            n += 1
+            last = S.norm_ws(run.facts.text(CM, rows[-1]["sp"]))
+            ok = len(rows) >= 2 and "Pat::PWild" in last and '"missing"' in last
+            run.ob("R06.9", f"{f.name}|let-pattern matrix ends with wildcard -> failure", ok, site(CM, l["sp"]),
+                   f"{len(rows)} rows; last row {'is the wildcard/failure row' if ok else 'is not a wildcard row calling missing'}",
+                   witness="let (\"ok\", n) = pair;  with a non-matching string: the emitted switch has no default and execution continues")
+    run.floor("destructuring-let matrices", n, 2)
+
+
 def run(run, model):
     mir = Mir(run.facts)
     run.try_rule(r06_1, model, mir)
@@ -302,4 +357,6 @@ def run(run, model):
     run.try_rule(r06_4, model)
     run.try_rule(r06_5, model)
     run.try_rule(r06_7, model)
+    run.try_rule(r06_8, model)
+    run.try_rule(r06_9, model)
     run.assume("tast_builder::build_pat and compile_struct_case read struct-pattern arguments positionally in declaration order (read and confirmed)")
